@@ -52,3 +52,54 @@ func init() {
 		return 0
 	}
 }
+
+func init() {
+	// vh conc-iso -in mixes.json -out events.ndjson
+	commands["conc-iso"] = func(args []string) int {
+		fs := flag.NewFlagSet("conc-iso", flag.ExitOnError)
+		in := fs.String("in", "", "mixes JSON (list of concx.IsoMix)")
+		out := fs.String("out", "", "events NDJSON")
+		_ = fs.Parse(args)
+		data, err := os.ReadFile(*in)
+		if err != nil {
+			fmt.Fprintln(os.Stderr, err)
+			return 2
+		}
+		var mixes []concx.IsoMix
+		if err := json.Unmarshal(data, &mixes); err != nil {
+			fmt.Fprintln(os.Stderr, err)
+			return 2
+		}
+		if err := concx.RunIsoMixes(mixes, *out); err != nil {
+			fmt.Fprintln(os.Stderr, err)
+			return 2
+		}
+		return 0
+	}
+}
+
+func init() {
+	// vh conc-pipe -in cases.json -out events.ndjson -workers 6
+	commands["conc-pipe"] = func(args []string) int {
+		fs := flag.NewFlagSet("conc-pipe", flag.ExitOnError)
+		in := fs.String("in", "", "cases JSON (list of concx.PipeCase)")
+		out := fs.String("out", "", "events NDJSON")
+		workers := fs.Int("workers", 6, "parallel worlds")
+		_ = fs.Parse(args)
+		data, err := os.ReadFile(*in)
+		if err != nil {
+			fmt.Fprintln(os.Stderr, err)
+			return 2
+		}
+		var cases []concx.PipeCase
+		if err := json.Unmarshal(data, &cases); err != nil {
+			fmt.Fprintln(os.Stderr, err)
+			return 2
+		}
+		if err := concx.RunPipeCases(cases, *out, *workers); err != nil {
+			fmt.Fprintln(os.Stderr, err)
+			return 2
+		}
+		return 0
+	}
+}
